@@ -64,6 +64,22 @@ def replay(recs):
                     obs = f"raised {type(e).__name__}: {e}"
                 if obs is not None:
                     out.append(dict(site=site + ".components", stratum=st, case=case, expected=[r["g"], r["h"]], observed=obs))
+                # the quadric has reported its components by now: moved by an exact isometry, its components are the moved pair
+                from ..moved import mh, motions, warm
+                dimq = 2 if t == "lines" else 3
+                for mname, mv, T, Ti in motions(dimq):
+                    try:
+                        q1 = mv(warm(q))
+                        cs = [np.asarray(c.array) for c in q1.components]
+                        exp = [np.array(mh(Ti, r["g"])), np.array(mh(Ti, r["h"]))]
+                        ok = bool(q1.is_degenerate) and len(cs) == 2 and \
+                            ((same_class(cs[0], exp[0]) and same_class(cs[1], exp[1])) or (same_class(cs[0], exp[1]) and same_class(cs[1], exp[0])))
+                        obs = None if ok else {"components": [str(c.tolist()) for c in cs]}
+                    except Exception as e:  # noqa: BLE001
+                        obs = f"raised {type(e).__name__}: {e}"
+                    if obs is not None:
+                        out.append(dict(site=site + f".components/used-then-moved/{mname}", stratum=st, case={**case, "moved by": mname},
+                                        expected=[mh(Ti, r["g"]), mh(Ti, r["h"])], observed=obs))
             elif t == "conics":
                 c1, c2 = np.array(r["c1"]), np.array(r["c2"])
                 exp = [gvec(p) for p in r["pts"]]
